@@ -686,6 +686,22 @@ class SymReal(_SymNum):
     def item(self):
         return self
 
+    # numpy scalars answer the reductions of a one-element array
+    def max(self, *a, **k):
+        return self
+
+    def min(self, *a, **k):
+        return self
+
+    def sum(self, *a, **k):
+        return self
+
+    def mean(self, *a, **k):
+        return self
+
+    def flatten(self):
+        raise Unsupported("flatten() of a symbolic scalar")
+
     @property
     def shape(self):
         return ()
@@ -693,6 +709,10 @@ class SymReal(_SymNum):
     @property
     def ndim(self):
         return 0
+
+    @property
+    def size(self):
+        return 1
 
 
 numbers.Number.register(SymReal)
